@@ -205,6 +205,10 @@ func runC18_2(c *core.Ctx) {
 					(flow.ObjOf(f.Info, y) == types.Object(shutdownAction) || flow.ObjOf(f.Info, x) == types.Object(shutdownAction)) {
 					in |= fShutAction
 				}
+				// if err != nil { … } after the transient errnos were dealt with
+				if x, y, op, ok := flow.Cmp(e.Cond); ok && flow.IsNil(f.Info, y) && isErrorType(f.Info.TypeOf(x)) && (op == token.NEQ) == e.Sense {
+					in |= fAcceptFail
+				}
 				return in
 			}
 			sol := g.Solve(p)
